@@ -256,6 +256,23 @@ def check_driver(model, rep, rule):
         nb = [(c, src.body), (~c, src.orelse)]
       else:
         nb = [(formula.TRUE, src)]
+      # a getter chosen once per direction (operator.attrgetter('next')) and
+      # applied to the node: the attribute it reads, under the guard it was
+      # chosen under
+      nb2 = []
+      for f, v in nb:
+        if isinstance(v, ast.Call) and isinstance(v.func, ast.Name) and len(v.args) == 1 \
+            and not v.keywords:
+          gv = _guarded_values(fi, fi.node.body, v.func.id, mode_atom)
+          if gv and all(isinstance(x, ast.Call) and core.dotted(x.func) ==
+                        'operator.attrgetter' and len(x.args) == 1 and isinstance(
+                            x.args[0], ast.Constant) for g_, x in gv):
+            for g_, x in gv:
+              nb2.append((f & g_, ast.Attribute(value=v.args[0], attr=x.args[0].value,
+                                                ctx=ast.Load())))
+            continue
+        nb2.append((f, v))
+      nb = nb2
       facts['neighbours'] = [(str(f), core.norm(v)) for f, v in nb]
       ok = under(nb, FWD, (nodev + '.next',)) and under(nb, ~FWD, (nodev + '.prev',))
       if cond is not None:
